@@ -23,6 +23,18 @@ func symbolicParser() *parser {
 	return p
 }
 
+// schemeTables: special-scheme tables a user can configure with WithSpecialSchemes: the default one,
+// one with gopher added (as the Semantic profile does), and one without file and ftp.
+func schemeTable(which int) map[string]string {
+	switch which {
+	case 1:
+		return map[string]string{"ftp": "21", "file": "", "http": "80", "https": "443", "ws": "80", "wss": "443", "gopher": "70"}
+	case 2:
+		return map[string]string{"http": "80", "https": "443", "ws": "80", "wss": "443"}
+	}
+	return defaultSpecialSchemes
+}
+
 var opSetterNames = []string{"protocol", "username", "password", "host", "hostname", "port", "pathname", "search", "hash"}
 
 const (
